@@ -203,6 +203,27 @@ def ex(x):
     return core.fs(x)
 
 
+_DESC_CACHE = {}
+
+
+def _cached(fn):
+    """Descriptor strings of weighting / partition objects are formatted many thousand times
+    for the same few objects: memoise by object identity (the object is kept alive)."""
+    def g(obj):
+        k = (fn.__name__, id(obj))
+        hit = _DESC_CACHE.get(k)
+        if hit is not None and hit[0] is obj:
+            return hit[1]
+        if len(_DESC_CACHE) > 20000:
+            _DESC_CACHE.clear()
+        d = fn(obj)
+        _DESC_CACHE[k] = (obj, d)
+        return d
+    g.__name__ = fn.__name__
+    return g
+
+
+@_cached
 def wdesc(w):
     from odl.space.weighting import ConstWeighting, ArrayWeighting
     if isinstance(w, ConstWeighting):
@@ -212,6 +233,7 @@ def wdesc(w):
     return 'k@{}'.format(ex(getattr(w, 'exponent', 2.0)))   # custom inner / norm / dist
 
 
+@_cached
 def pdesc(part):
     """Per axis `min,max,n,side`: side = the code's cell side of a uniform axis, or the grid
     coordinates of a non-uniform one."""
@@ -1117,11 +1139,27 @@ def enumerate_cases(ctx, thorough, zoo, variant=None):
             rich = rich_all or uname in RICH
             if not broad_space and not (uname in RICH):
                 continue
+            # quick tier: on the weighted / exponent variants the non-RICH ufuncs only get the
+            # plain out-less __call__ (weight propagation does not depend on the ufunc; the
+            # RICH ufuncs run the full cross there)
+            light = (not thorough and not rich and
+                     skey.split('_')[0] in ('tw', 'ta', 'tp', 'dw', 'dp'))
             # ---- __call__
             for ops in call_patterns(u.nin, kind, rich):
                 yield Case('ufunc', skey, kind, uname, u, '__call__', ops, 'n', {}, variant)
-                if ops in ('e', 'ee', 'ae', 'ess') or (rich and ops in ('ea', 'es')):
+                if not thorough and not rich and ops == 'se':
+                    continue   # quick tier: the reversed scalar pattern only for the RICH ufuncs
+                if light and ops not in ('e', 'ee'):
+                    continue
+                if (ops in ('e', 'ee', 'ae', 'ess') or (rich and ops in ('ea', 'es'))) \
+                        and not light:
                     opats = out_patterns(u.nout, kind, rich)
+                    if not thorough and not rich:
+                        # quick tier, non-RICH ufuncs: explicit-None and tensor outs are
+                        # covered by the RICH ufuncs; 'ae' outs only for one-output ufuncs
+                        opats = [o for o in opats if not set(o) <= set('N') and 't' not in o]
+                        if ops == 'ae' and u.nout == 2:
+                            opats = opats[:2]
                     if call_only(skey) and not thorough:
                         # extra dtypes in the quick tier: element and ndarray out only
                         opats = [o for o in opats if set(o) <= set('ea')][:2]
@@ -1157,7 +1195,7 @@ def enumerate_cases(ctx, thorough, zoo, variant=None):
                             for op in ('FF', 'fN', 'NF'):
                                 yield Case('ufunc', skey, kind, uname, u, '__call__', ops, op,
                                            {'dtype': dt}, variant)
-            if call_only(skey):
+            if call_only(skey) or light:
                 continue
             if u.nin != 2 or u.nout != 1:
                 if uname in ('negative', 'modf', 'sqrt', 'clip'):
@@ -1806,6 +1844,218 @@ def run_history(ctx, V):
                     got.ravel()[:4], np.asarray(ref[1]).ravel()[:4]), desc)
 
 
+# ---------------------------------------------------------------------------
+# value history: a SEQUENCE of calls on one element, mirrored on plain arrays
+
+VH_SPACES = ['t_float64_23', 't_float32_3', 'tw_float64_23', 't_complex128_3', 't_int64_23',
+             'd_float64_23', 'd_float64_4', 'db_float64_23',
+             'p_float64_2x3', 'p_float32_2x3', 'p_discr_2x4', 'p_complex128_2x3']
+VH_INPLACE = ['add', 'multiply', 'subtract', 'maximum']       # dtype-preserving
+VH_KEPT_UNARY = ['sin', 'negative', 'absolute', 'isnan', 'square']
+VH_KEPT_BINARY = ['add', 'multiply', 'subtract', 'maximum', 'less']
+
+
+def arrays_of(obj):
+    """The ndarrays holding the data of an object (for memory-sharing checks)."""
+    k = kind_of(obj)
+    if k in ('tensor', 'discr'):
+        return [np.asarray(obj.asarray())]
+    if k == 'power':
+        out = []
+        for p in obj:
+            out.extend(arrays_of(p))
+        return out
+    if isinstance(obj, np.ndarray):
+        return [obj]
+    return []
+
+
+def shares(a, b):
+    return any(np.shares_memory(u, v) for u in arrays_of(a) for v in arrays_of(b))
+
+
+def value_of(obj):
+    if kind_of(obj) is not None:
+        return np.asarray(obj.asarray())
+    return np.asarray(obj)
+
+
+def vh_sequence(rng, kind, dt, shape):
+    """A random plan of 4-8 steps (pure data: replayable)."""
+    n = rng.randint(4, 8)
+    sc = [2, 3] if dt.kind in 'iu' else [2.0, 0.5, -1.5]
+    steps = []
+    for i in range(n):
+        choices = ['ufunc1', 'ufunc2', 'asarray', 'npasarray', 'legacy_inplace', 'setitem',
+                   'accumulate', 'with_kept']
+        if kind != 'power':
+            choices += ['out_x', 'at', 'reduce']
+        else:
+            choices += ['reduce_all']
+        op = rng.choice(choices)
+        st = {'op': op}
+        if op == 'ufunc1':
+            st['u'] = rng.choice(VH_KEPT_UNARY)
+        elif op in ('ufunc2', 'with_kept'):
+            st['u'] = rng.choice(VH_KEPT_BINARY)
+            st['s'] = rng.choice(sc)
+            st['pick'] = rng.randint(0, 7)
+        elif op in ('out_x', 'legacy_inplace'):
+            st['u'] = rng.choice(VH_INPLACE)
+            st['s'] = rng.choice(sc)
+        elif op == 'at':
+            st['u'] = rng.choice(['add', 'multiply'])
+            st['s'] = rng.choice(sc)
+            st['idx'] = [rng.randrange(shape[0]) for _ in range(2)]
+        elif op == 'setitem':
+            st['variant'] = rng.randint(0, 2)
+        elif op in ('reduce', 'accumulate'):
+            st['u'] = rng.choice(['add', 'maximum'])
+        steps.append(st)
+    return steps
+
+
+def vh_run(kind, space, steps):
+    """Runs one plan on an element and on its plain mirror. Returns list of (step index,
+    code, text)."""
+    dt = base_dtype(space)
+    shape = tuple(space.shape)
+    x = space.element(values(shape, dt, 0))
+    xm = np.array(x.asarray(), copy=True)
+    kept = []      # (label, object, mirror)
+    problems = []
+
+    def check(i, st):
+        tag = '{}:{}'.format(i, st['op'] + (':' + st['u'] if 'u' in st else ''))
+        if not same_values(value_of(x), xm):
+            problems.append((tag, 'element-differs', 'element {} vs mirror {}'.format(
+                value_of(x).ravel()[:4], xm.ravel()[:4])))
+        for lab, o, m in kept:
+            vo = value_of(o)
+            if vo.shape != np.shape(m) or not same_values(vo, m):
+                problems.append((tag, 'kept-result-changed',
+                                 '{} is now {} , its NumPy mirror {}'.format(
+                                     lab, vo.ravel()[:4], np.asarray(m).ravel()[:4])))
+        objs = [('x', x, xm)] + kept
+        for a in range(len(objs)):
+            for b in range(a + 1, len(objs)):
+                la, oa, ma = objs[a]
+                lb, ob, mb = objs[b]
+                so, sm = shares(oa, ob), shares(ma, mb)
+                if so != sm:
+                    problems.append((tag, 'memory-sharing',
+                                     '{} and {} {}share memory, the NumPy mirrors {}'.format(
+                                         la, lb, '' if so else 'do not ',
+                                         'do' if sm else 'do not')))
+
+    for i, st in enumerate(steps):
+        op = st['op']
+        tag = '{}:{}'.format(i, op)
+        try:
+            with warnings.catch_warnings():
+                warnings.simplefilter('ignore')
+                with np.errstate(all='ignore'):
+                    if op == 'ufunc1':
+                        u = getattr(np, st['u'])
+                        kept.append(('r{}={}(x)'.format(i, st['u']), u(x), u(xm)))
+                    elif op == 'ufunc2':
+                        u = getattr(np, st['u'])
+                        kept.append(('r{}={}(x,{})'.format(i, st['u'], st['s']),
+                                     u(x, st['s']), u(xm, st['s'])))
+                    elif op == 'with_kept':
+                        u = getattr(np, st['u'])
+                        cands = [(l, o, m) for l, o, m in kept
+                                 if np.shape(m) == xm.shape and
+                                 (kind != 'power' or kind_of(o) == 'power' or
+                                  isinstance(o, np.ndarray))]
+                        if not cands:
+                            kept.append(('r{}={}(x,{})'.format(i, st['u'], st['s']),
+                                         u(x, st['s']), u(xm, st['s'])))
+                        else:
+                            l, o, m = cands[st['pick'] % len(cands)]
+                            kept.append(('r{}={}(x,{})'.format(i, st['u'], l.split('=')[0]),
+                                         u(x, o), u(xm, m)))
+                    elif op == 'asarray':
+                        a = x.asarray()
+                        # tensor / discretized: asarray() IS the data (documented: shares
+                        # memory); power space: a new array of its own
+                        kept.append(('a{}=x.asarray()'.format(i), a,
+                                     xm if kind != 'power' else xm.copy()))
+                    elif op == 'npasarray':
+                        a = np.asarray(x)
+                        kept.append(('a{}=np.asarray(x)'.format(i), a,
+                                     xm if kind != 'power' else xm.copy()))
+                    elif op == 'out_x':
+                        u = getattr(np, st['u'])
+                        r = u(x, st['s'], out=x)
+                        u(xm, st['s'], out=xm)
+                        if r is not x:
+                            problems.append((tag, 'out-not-returned', 'out=x not returned'))
+                    elif op == 'legacy_inplace':
+                        r = getattr(x.ufuncs, st['u'])(st['s'], out=x)
+                        getattr(np, st['u'])(xm, st['s'], out=xm)
+                        if r is not x:
+                            problems.append((tag, 'out-not-returned', 'x.ufuncs out=x'))
+                    elif op == 'at':
+                        u = getattr(np, st['u'])
+                        u.at(x, st['idx'], st['s'])
+                        u.at(xm, st['idx'], st['s'])
+                    elif op == 'setitem':
+                        new = values(shape, dt, st['variant'] + 1)
+                        if kind == 'power':
+                            for j in range(len(x)):
+                                x[j][:] = new[j]
+                        else:
+                            x[:] = new
+                        xm[...] = new
+                    elif op == 'reduce':
+                        u = getattr(np, st['u'])
+                        kept.append(('r{}={}.reduce(x)'.format(i, st['u']),
+                                     u.reduce(x), u.reduce(xm)))
+                    elif op == 'reduce_all':
+                        kept.append(('r{}=add.reduce(x,axis=None)'.format(i),
+                                     np.add.reduce(x, axis=None), np.add.reduce(xm, axis=None)))
+                    elif op == 'accumulate':
+                        u = getattr(np, st['u'])
+                        kept.append(('r{}={}.accumulate(x)'.format(i, st['u']),
+                                     u.accumulate(x), u.accumulate(xm)))
+        except Exception as e:  # noqa
+            problems.append((tag, 'raised:{}({})'.format(type(e).__name__, msg_tag(e)),
+                             '{}: {}'.format(type(e).__name__, str(e)[:160])))
+            break
+        check(i, st)
+        if problems:
+            break
+    return problems
+
+
+def run_value_history(ctx, V, zoo, spaces, n_seq):
+    """VALUE-history stratum (oracle only): per element a random sequence of 4-8 steps
+    (ufunc results kept, asarray()/np.asarray kept, in-place updates through out=x, ufunc.at,
+    x.ufuncs.<name>(out=x), x[:] = ..., a ufunc with an earlier kept result as operand,
+    reduce/accumulate kept), mirrored step by step on plain NumPy copies. After EVERY step all
+    kept results must still equal their mirrors, the element must equal its mirror, and two
+    kept objects (or one and x) share memory iff their mirrors do."""
+    import random
+    for skey in VH_SPACES:
+        kind = zoo[skey][0]
+        space = spaces[skey]
+        for q in range(n_seq):
+            seed = ctx.rng.getrandbits(32)
+            steps = vh_sequence(random.Random(seed), kind, base_dtype(space),
+                                tuple(space.shape))
+            problems = vh_run(kind, space, steps)
+            ctx.case(('valuehistory', skey, seed) if not problems else None)
+            ctx.hit('history/values/' + kind)
+            for tag, code, text in problems:
+                V.add('valuehistory kind={} fam={} step={} code={} [space={} seq={}]'.format(
+                    kind, skey.split('_')[0], tag.split(':', 1)[1], code, skey, seed),
+                    'after step {} of {}: {}'.format(
+                        tag, [st['op'] + (':' + st['u'] if 'u' in st else '') for st in steps],
+                        text)[:600],
+                    {'stream': 'valuehistory', 'space': skey, 'seed': seed, 'steps': steps})
+
+
 def model_branch(c, r, ans):
     """Which branch of the Lean model answered: model/<kind>/<method>/<outcome class>."""
     if ans.startswith('ok '):
@@ -1836,7 +2086,7 @@ EXPECTED_MODEL_BRANCHES = [
     'model/discr/reduce/err:numpy', 'model/discr/reduce/notimpl',
     'model/discr/reduce/ok:given', 'model/discr/reduce/ok:scalar',
     'model/discr/reduce/ok:wrap', 'model/discr/reduceat/err:ValueError',
-    'model/discr/reduceat/err:numpy', 'model/discr/reduceat/notimpl',
+    'model/discr/reduceat/notimpl',
     'model/legacy-discr/call/err:numpy', 'model/legacy-discr/call/ok:given',
     'model/legacy-discr/call/ok:given+given', 'model/legacy-discr/call/ok:wrap',
     'model/legacy-discr/call/ok:wrap+wrap', 'model/legacy-discr/reduce/err:ValueError',
@@ -1882,6 +2132,7 @@ EXPECTED_MODEL_BRANCHES = [
 EXPECTED_STRATA = (
     ['layout/{}/{}'.format(l, m) for l in ('F', 'strided', 'slice-view')
      for m in ('call', 'at', 'reduce', 'accumulate', 'outer', 'reduceat')] +
+    ['history/values/' + k for k in ('tensor', 'discr', 'power')] +
     ['history/{}/{}'.format(c, s) for c in ('isnan', 'less', 'signbit', 'mul1j', 'add_f32',
                                             'true_divide', 'sin')
      for s in ('rn3^2', 'discr3^2', 'rn4^2', 'cn3^2', 'rn3^3', 'f32_3^2', 'discr2x2^2',
@@ -2061,12 +2312,17 @@ def run(ctx, deep=False):
             ctx.disagree({'stream': 'npreduce', 'shape': list(shape), 'axis': list(ax),
                           'line': line}, real, answers[line])
     try:
+        run_value_history(ctx, V, zoo, spaces, 6 if ctx.tier == 'quick' else 40)
+    except Exception as e:  # noqa
+        V.add('value-history stream raised {}({})'.format(type(e).__name__, msg_tag(e)),
+              '{}: {}'.format(type(e).__name__, str(e)[:200]), {'stream': 'valuehistory'})
+    try:
         run_history(ctx, V)
     except Exception as e:  # noqa
         V.add('history stream raised {}({})'.format(type(e).__name__, msg_tag(e)),
               '{}: {}'.format(type(e).__name__, str(e)[:200]), {'stream': 'history'})
     V.flush()
-    strata = set(k for k in ctx.branches if k.startswith(('layout/', 'history/')))
+    strata = set(k for k in ctx.branches if k.startswith(('layout/', 'history/')))  # incl. history/values/
     ctx.extra['unhit_strata'] = sorted(set(EXPECTED_STRATA) - strata)
     if ctx.extra['unhit_strata'] and ctx.tier == 'thorough':
         ctx.disagree({'unhit_strata': ctx.extra['unhit_strata']},
@@ -2111,6 +2367,10 @@ def search(ctx, broken):
 
 
 def replay(ctx, case):
+    if case.get('stream') == 'valuehistory' and 'steps' in case:
+        zoo = space_zoo()
+        probs = vh_run(zoo[case['space']][0], zoo[case['space']][1](), case['steps'])
+        return '; '.join('{} {}: {}'.format(*p) for p in probs) if probs else None
     if case.get('stream') == 'history':
         class _V(object):
             def __init__(self):
